@@ -27,6 +27,8 @@ type Cut struct {
 	// DeferBarrier: a `defer` of a call matching Barrier counts as passing the barrier
 	// (only sound for queries whose targets are function exits).
 	DeferBarrier bool
+	// NoInline: analyse Fn alone; by default private helpers called only from Fn's root are followed as if inlined.
+	NoInline bool
 }
 
 type pt struct {
@@ -59,58 +61,175 @@ func instrString(in ssa.Instruction) string {
 	return s
 }
 
+// frame is one inlined call: where to continue in the caller, and (once the helper returned) what it returned.
+type frame struct {
+	call ssa.Instruction // the call instruction in the caller
+	up   *frame          // caller's frame (nil: the analysed function itself)
+}
+
+// retInfo records, per inlined call on the current path, the values its taken Return returned.
+type retInfo struct {
+	call    ssa.Instruction
+	results []ssa.Value
+	up      *retInfo
+}
+
+func (r *retInfo) lookup(call ssa.Value) []ssa.Value {
+	for x := r; x != nil; x = x.up {
+		if v, ok := x.call.(ssa.Value); ok && v == call {
+			return x.results
+		}
+	}
+	return nil
+}
+
+// inlineable: cl is a plain call of an unexported function of the same package whose every call site lies in
+// (the region of) the analysed function's root. Such private helpers are analysed as if inlined, so that
+// extract-method refactorings do not hide guards, effects or exits.
+func inlineable(root *ssa.Function, cl *ssa.Call, memo map[*ssa.Function]bool) *ssa.Function {
+	g := cl.Call.StaticCallee()
+	if g == nil || g.Blocks == nil || gProg == nil || g == root {
+		return nil
+	}
+	if v, ok := memo[g]; ok {
+		if v {
+			return g
+		}
+		return nil
+	}
+	memo[g] = false
+	obj := funcObj(g)
+	if obj == nil || obj.Exported() || g.Parent() != nil || funcPkgPath(g) != funcPkgPath(root) {
+		return nil
+	}
+	sites := gProg.CallSites(obj)
+	if len(sites) == 0 {
+		return nil
+	}
+	for _, cs := range sites {
+		if cs.Kind != "call" && cs.Kind != "" {
+			return nil
+		}
+		if _, isCall := cs.Instr.(*ssa.Call); !isCall {
+			return nil
+		}
+		r := rootFn(cs.Fn)
+		if r == root {
+			continue
+		}
+		// one level of nesting: the caller is itself such a helper of root
+		ro := funcObj(r)
+		if ro == nil || ro.Exported() || funcPkgPath(r) != funcPkgPath(root) {
+			return nil
+		}
+		for _, cs2 := range gProg.CallSites(ro) {
+			if rootFn(cs2.Fn) != root {
+				return nil
+			}
+		}
+	}
+	memo[g] = true
+	return g
+}
+
 // Run returns nil when every path is cut, or a witness path.
 func (q *Cut) Run() *Witness {
+	type state struct {
+		p   pt
+		fr  *frame
+		ret *retInfo
+	}
+	type key struct {
+		p  pt
+		fr *frame
+	}
 	type node struct {
-		p    pt
+		st   state
 		prev int
 	}
 	var nodes []node
-	helperMemo := map[*ssa.Function]bool{}
-	seen := map[pt]bool{}
-	push := func(p pt, prev int) {
-		if seen[p] {
+	inlMemo := map[*ssa.Function]bool{}
+	frames := map[[2]any]*frame{} // (call, up) → frame: canonical frames so that `seen` works
+	getFrame := func(call ssa.Instruction, up *frame) *frame {
+		k := [2]any{call, up}
+		if f, ok := frames[k]; ok {
+			return f
+		}
+		f := &frame{call: call, up: up}
+		frames[k] = f
+		return f
+	}
+	seen := map[key]bool{}
+	push := func(st state, prev int) {
+		k := key{st.p, st.fr}
+		if seen[k] {
 			return
 		}
-		seen[p] = true
-		nodes = append(nodes, node{p, prev})
+		seen[k] = true
+		nodes = append(nodes, node{st, prev})
 	}
 	if len(q.Fn.Blocks) == 0 {
 		return nil
 	}
+	root := rootFn(q.Fn)
 	if len(q.StartBlocks) > 0 {
 		for _, b := range q.StartBlocks {
-			push(pt{b, 0}, -1)
+			push(state{p: pt{b, 0}}, -1)
 		}
 	} else if q.Start == nil {
-		push(pt{q.Fn.Blocks[0], 0}, -1)
+		push(state{p: pt{q.Fn.Blocks[0], 0}}, -1)
 	} else {
-		for _, b := range q.Fn.Blocks {
-			for i, in := range b.Instrs {
-				if q.Start(in) {
-					push(pt{b, i + 1}, -1)
+		// start points may lie in the function itself or in a private helper it calls (then the path starts inside
+		// the helper and returns into the function at every call site of the helper)
+		var addStarts func(fn *ssa.Function, fr *frame, depth int)
+		addStarts = func(fn *ssa.Function, fr *frame, depth int) {
+			for _, b := range fn.Blocks {
+				for i, in := range b.Instrs {
+					if q.Start(in) {
+						push(state{p: pt{b, i + 1}, fr: fr}, -1)
+					}
+					if cl, ok := in.(*ssa.Call); ok && !q.NoInline && depth < 2 {
+						if g := inlineable(root, cl, inlMemo); g != nil {
+							addStarts(g, getFrame(in, fr), depth+1)
+						}
+					}
 				}
 			}
 		}
+		addStarts(q.Fn, nil, 0)
+	}
+	depthOf := func(fr *frame) int {
+		n := 0
+		for x := fr; x != nil; x = x.up {
+			n++
+		}
+		return n
 	}
 	for h := 0; h < len(nodes); h++ {
 		n := nodes[h]
-		b, i := n.p.b, n.p.i
+		b, i := n.st.p.b, n.st.p.i
+		fr, ret := n.st.fr, n.st.ret
 		stopped := false
 		for ; i < len(b.Instrs); i++ {
 			in := b.Instrs[i]
+			// the return of an inlined helper is not an exit of the analysed function: continue in the caller
+			if r, isRet := in.(*ssa.Return); isRet && fr != nil {
+				ri := &retInfo{call: fr.call, results: retResults(r), up: ret}
+				cb := fr.call.Block()
+				for k, x := range cb.Instrs {
+					if x == fr.call {
+						push(state{p: pt{cb, k + 1}, fr: fr.up, ret: ri}, h)
+					}
+				}
+				stopped = true
+				break
+			}
 			if q.Barrier != nil {
 				if q.Barrier(in) {
 					stopped = true
 					break
 				}
-				// a private helper of this function that passes the barrier on every path counts as the barrier
-				// (extract-method must not hide a guard or an effect)
-				if cl, ok := in.(*ssa.Call); ok && helperPassesBarrier(q, cl, helperMemo) {
-					stopped = true
-					break
-				}
-				if q.DeferBarrier {
+				if q.DeferBarrier && fr == nil {
 					if d, ok := in.(*ssa.Defer); ok && deferMatches(d, q.Barrier) {
 						stopped = true
 						break
@@ -121,9 +240,17 @@ func (q *Cut) Run() *Witness {
 				// build witness
 				w := &Witness{Target: in}
 				for k := h; k >= 0; k = nodes[k].prev {
-					w.Blocks = append([]int{nodes[k].p.b.Index}, w.Blocks...)
+					w.Blocks = append([]int{nodes[k].st.p.b.Index}, w.Blocks...)
 				}
 				return w
+			}
+			// descend into a private helper
+			if cl, ok := in.(*ssa.Call); ok && !q.NoInline && depthOf(fr) < 2 {
+				if g := inlineable(root, cl, inlMemo); g != nil {
+					push(state{p: pt{g.Blocks[0], 0}, fr: getFrame(in, fr), ret: ret}, h)
+					stopped = true
+					break
+				}
 			}
 		}
 		if stopped {
@@ -139,15 +266,86 @@ func (q *Cut) Run() *Witness {
 				if q.Edge != nil && q.Edge(ifi, s) {
 					continue
 				}
-				push(pt{succ, 0}, h)
+				// correlation with what an inlined helper returned on this path: `if err != nil` right after the call
+				if infeasibleAfterReturn(ifi, s, ret) {
+					continue
+				}
+				push(state{p: pt{succ, 0}, fr: fr, ret: ret}, h)
 			}
 		} else {
 			for _, succ := range b.Succs {
-				push(pt{succ, 0}, h)
+				push(state{p: pt{succ, 0}, fr: fr, ret: ret}, h)
 			}
 		}
 	}
 	return nil
+}
+
+// infeasibleAfterReturn: the branch tests a result of an inlined helper against nil / a boolean, and the Return taken
+// on this path returned a value for which this edge cannot be taken.
+func infeasibleAfterReturn(ifi *ssa.If, succ int, ret *retInfo) bool {
+	if ret == nil {
+		return false
+	}
+	cond := ifi.Cond
+	pol := succ == 0
+	for {
+		u, ok := cond.(*ssa.UnOp)
+		if !ok || u.Op != token.NOT {
+			break
+		}
+		cond = u.X
+		pol = !pol
+	}
+	resultOf := func(v ssa.Value) (ssa.Value, bool) {
+		switch x := v.(type) {
+		case *ssa.Call:
+			if rs := ret.lookup(x); len(rs) == 1 {
+				return rs[0], true
+			}
+		case *ssa.Extract:
+			if cl, ok := x.Tuple.(*ssa.Call); ok {
+				if rs := ret.lookup(cl); rs != nil && x.Index < len(rs) {
+					return rs[x.Index], true
+				}
+			}
+		}
+		return nil, false
+	}
+	if b, ok := cond.(*ssa.BinOp); ok && (b.Op == token.NEQ || b.Op == token.EQL) {
+		var rv ssa.Value
+		var have bool
+		if k, isK := b.Y.(*ssa.Const); isK && k.Value == nil {
+			rv, have = resultOf(b.X)
+		}
+		if !have {
+			return false
+		}
+		isNil := false
+		if k, isK := rv.(*ssa.Const); isK && k.Value == nil {
+			isNil = true
+		} else if !provablyNonNil(rv, nil, map[ssa.Value]bool{}) {
+			return false // unknown
+		}
+		// edge says: (rv != nil) == pol   for NEQ;  (rv == nil) == pol for EQL
+		truth := !isNil
+		if b.Op == token.EQL {
+			truth = isNil
+		}
+		return truth != pol
+	}
+	// boolean result tested directly
+	if rv, have := resultOf(cond); have {
+		if k, isK := rv.(*ssa.Const); isK && k.Value != nil {
+			if isConstBool(rv, true) {
+				return !pol
+			}
+			if isConstBool(rv, false) {
+				return pol
+			}
+		}
+	}
+	return false
 }
 
 // deferMatches: does the deferred call (directly, or inside a deferred closure on all
@@ -397,23 +595,57 @@ func deferredBefore(fn *ssa.Function, at IP, barrier IP) bool {
 	return q.Run() == nil
 }
 
+// countInstr / findInstrs look at fn and at the private helpers that are called only from it (see inlineable):
+// a construct that an extract-method refactoring moved into such a helper still counts.
 func countInstr(fn *ssa.Function, p IP) int {
-	n := 0
-	eachInstr(fn, func(in ssa.Instruction) {
-		if p(in) {
-			n++
-		}
-	})
-	return n
+	return len(findInstrs(fn, p))
 }
 
 func findInstrs(fn *ssa.Function, p IP) []ssa.Instruction {
+	var out []ssa.Instruction
+	for _, g := range helperRegion(fn) {
+		eachInstr(g, func(in ssa.Instruction) {
+			if p(in) {
+				out = append(out, in)
+			}
+		})
+	}
+	return out
+}
+
+// findInstrsLocal: fn only (for rules that iterate over all functions themselves).
+func findInstrsLocal(fn *ssa.Function, p IP) []ssa.Instruction {
 	var out []ssa.Instruction
 	eachInstr(fn, func(in ssa.Instruction) {
 		if p(in) {
 			out = append(out, in)
 		}
 	})
+	return out
+}
+
+var regionCache = map[*ssa.Function][]*ssa.Function{}
+
+// helperRegion: fn plus the helpers Cut would inline into it (two levels).
+func helperRegion(fn *ssa.Function) []*ssa.Function {
+	if r, ok := regionCache[fn]; ok {
+		return r
+	}
+	out := []*ssa.Function{fn}
+	root := rootFn(fn)
+	memo := map[*ssa.Function]bool{}
+	seen := map[*ssa.Function]bool{fn: true}
+	for i := 0; i < len(out) && i < 8; i++ {
+		eachInstr(out[i], func(in ssa.Instruction) {
+			if cl, ok := in.(*ssa.Call); ok {
+				if g := inlineable(root, cl, memo); g != nil && !seen[g] {
+					seen[g] = true
+					out = append(out, g)
+				}
+			}
+		})
+	}
+	regionCache[fn] = out
 	return out
 }
 
@@ -437,38 +669,3 @@ func edgeSuccs(fn *ssa.Function, r Rel) []*ssa.BasicBlock {
 	return out
 }
 
-// helperPassesBarrier: cl calls an unexported function of the same package whose every call site lies in q.Fn's
-// root function, and every path through that helper passes the barrier.
-func helperPassesBarrier(q *Cut, cl *ssa.Call, memo map[*ssa.Function]bool) bool {
-	g := cl.Call.StaticCallee()
-	if g == nil || g.Blocks == nil || gProg == nil || g == q.Fn {
-		return false
-	}
-	if v, ok := memo[g]; ok {
-		return v
-	}
-	memo[g] = false
-	obj := funcObj(g)
-	root := rootFn(q.Fn)
-	if obj == nil || obj.Exported() || g.Parent() != nil || funcPkgPath(g) != funcPkgPath(root) {
-		return false
-	}
-	for _, cs := range gProg.CallSites(obj) {
-		if cs.Kind == "value" || cs.Kind == "invoke" || rootFn(cs.Fn) != root {
-			return false
-		}
-	}
-	has := false
-	eachInstr(g, func(in ssa.Instruction) {
-		if q.Barrier(in) {
-			has = true
-		}
-	})
-	if !has {
-		return false
-	}
-	sub := &Cut{Fn: g, Target: isReturn, Barrier: q.Barrier}
-	ok := sub.Run() == nil
-	memo[g] = ok
-	return ok
-}
